@@ -62,6 +62,7 @@ class SurfaceSubdivision(Logger):
             A,B,C,D = self.mesh.faces[face_id]
             self.mesh.faces[face_id] = [A,B,D]
             self.mesh.faces.append([B,C,D])
+            self.mesh.edges.append(keyify(B,D)) # the new diagonal (later operations look edges up in this list)
         else:
             self.split_face_as_fan(face_id)
 
@@ -167,6 +168,7 @@ class SurfaceSubdivision(Logger):
             half[keyify(A,B)]=C
 
         bary = dict()
+        new_edges = set()
         for iF,F in enumerate(self.mesh.faces):
             pS = sum([self.mesh.vertices[u] for u in F])/3
             bary[iF] = len(newMeshData.vertices)
@@ -185,6 +187,11 @@ class SurfaceSubdivision(Logger):
                 [C, mCA, S, mBC],
             ]:
                 newMeshData.faces.append(new_face)
+            for new_edge in [
+                (A,mAB),(mAB,B),(B,mBC),(mBC,C),(C,mCA),(mCA,A), (mAB,S),(mBC,S),(mCA,S)
+            ]:
+                new_edges.add(keyify(new_edge))
+        newMeshData.edges += list(new_edges) # later operations in the same block look edges up in this list
         self.mesh = newMeshData
 
 @allowed_mesh_types(SurfaceMesh)
